@@ -70,6 +70,18 @@
 (*      of redirects (the table CompleteRedirects fills is sized by it),    *)
 (*      stopping at the first failure; the linker gets the objects in that  *)
 (*      order followed by go.o.                                             *)
+(*  CK  CompileKernel.  The go tool is asked (GOARCH set, cgo off,            *)
+(*      GOPATH=/kernel) for the build script of the kernel's main package;  *)
+(*      build.sh is a fixed prologue followed by that script with $WORK     *)
+(*      replaced by the work directory and without the lines starting with  *)
+(*      `mv ` and the `<path/>buildid -w ...` calls - every other line      *)
+(*      unchanged, in order.  It is run, and the entry point is exported:   *)
+(*      objcopy gets --add-symbol kernel.Kmain=.text:0xADDR, ADDR being the *)
+(*      address column of the first `go tool nm` line that ends in          *)
+(*      kmain.Kmain, and --globalize-symbol for runtime.g0, runtime.m0 and  *)
+(*      runtime.physPageSize.  A failing tool, no such nm line or one       *)
+(*      without an address column aborts (build.sh is only written when the *)
+(*      go tool delivered the script).                                      *)
 (*  DET Every output above is a function of the input: repeated builds (in  *)
 (*      one process, and in a fresh process, where Go's map iteration order *)
 (*      differs) yield the same result.                                     *)
@@ -392,12 +404,58 @@ RtJudge(in, out, D) ==
              <<"the linker does not get the assembly objects in order followed by go.o", out.link>> >> >>
 
 --------------------------------------------------------------------------
+(* CK - CompileKernel over fake tools.                                                                           *)
+(* in:  lines (the script `go build -n` prints, as character sequences), nm (the lines of `go tool nm`),         *)
+(*      buildrc, nmrc, objrc (exit codes of go build, go tool nm, objcopy)                                       *)
+(* out: res, written (build.sh exists), script (its text, work directory spelled $DIR/work), goenv, goargs,      *)
+(*      objcopy (the argument lists of the objcopy runs)                                                         *)
+CkWorkVar == <<"$", "W", "O", "R", "K">>
+CkWorkDir == <<"$", "D", "I", "R", "/", "w", "o", "r", "k">>
+CkMv == <<"m", "v", " ">>
+CkBuildid == <<"b", "u", "i", "l", "d", "i", "d">>
+CkDashW == <<" ", "-", "w", " ">>
+CkKmain == <<"k", "m", "a", "i", "n", ".", "K", "m", "a", "i", "n">>
+CkProlog == "set -e\nexport GOOS=linux\nexport GOARCH=amd64\nexport CGO_ENABLED=0\nalias pack='go tool pack'\n\n"
+CkBase(w) == LET i == LastIndexOf(w, "/") IN IF i = 0 THEN w ELSE From(w, i + 1)
+CkKept(l) == LET i == IndexOf(l, " ") IN
+             /\ ~HasPrefix(l, CkMv)
+             /\ ~(i > 0 /\ CkBase(Upto(l, i - 1)) = CkBuildid /\ HasPrefix(From(l, i), CkDashW))
+RECURSIVE CkBody(_, _)
+CkBody(ls, i) == IF i > Len(ls) THEN ""
+                 ELSE LET l == ReplaceAll(ls[i], CkWorkVar, CkWorkDir) IN (IF CkKept(l) THEN Str(l) \o "\n" ELSE "") \o CkBody(ls, i + 1)
+CkScript(in) == CkProlog \o CkBody(in.lines, 1)
+CkHits(in) == {i \in 1..Len(in.nm) : HasSuffix(TrimSpace(in.nm[i]), CkKmain)}
+CkLine(in) == TrimSpace(in.nm[MinOf(CkHits(in))])
+CkNoAddr(in) == in.nmrc # 0 \/ CkHits(in) = {} \/ IndexOf(CkLine(in), " ") = 0
+CkAbort(in) == in.buildrc # 0 \/ CkNoAddr(in) \/ in.objrc # 0
+CkGo == <<"build", "-ldflags=-tmpdir=$DIR/work -linkmode=external '-extldflags=-nostartfiles -nodefaultlibs -nostdlib -r'", "-n",
+          "github.com/ProjectSerenity/firefly/kernel/main">>
+CkObjcopy(in) == <<"--add-symbol", "kernel.Kmain=.text:0x" \o Str(Upto(CkLine(in), IndexOf(CkLine(in), " ") - 1)),
+                   "--globalize-symbol", "runtime.g0", "--globalize-symbol", "runtime.m0", "--globalize-symbol", "runtime.physPageSize",
+                   "$DIR/work/go.o", "$DIR/work/go.o">>
+CkJudge(in, out, D) ==
+  << <<"CK", out.res \notin {"ok", "exit"}, <<"the step neither completed nor aborted", out.res>> >>,
+     <<"CK", CkAbort(in) /\ out.res = "ok", <<"a failing tool or a missing kmain.Kmain address must abort the build">> >>,
+     <<"CK", ~CkAbort(in) /\ out.res # "ok", <<"the kernel must be compiled", out.res>> >>,
+     <<"CK", out.goargs # CkGo \/ out.goenv # "GOARCH=amd64 CGO_ENABLED=0 GOPATH=/kernel",
+             <<"the go tool is not asked for the build script of the kernel's main package in the kernel's environment", out.goargs, out.goenv>> >>,
+     <<"CK", in.buildrc # 0 /\ out.written, <<"build.sh written although the go tool failed">> >>,
+     LET bad == in.buildrc = 0 /\ (~out.written \/ out.script # CkScript(in)) IN
+     <<"CK", bad, IF bad THEN <<"build.sh is not the prologue + the script without `mv` and `buildid -w` lines, $WORK replaced", "got", out.script,
+                                "want", CkScript(in)>> ELSE <<>> >>,
+     <<"CK", (in.buildrc # 0 \/ CkNoAddr(in)) /\ out.objcopy # <<>>, <<"objcopy run although the entry point's address is unknown", out.objcopy>> >>,
+     LET bad == in.buildrc = 0 /\ ~CkNoAddr(in) /\ out.objcopy # <<CkObjcopy(in)>> IN
+     <<"CK", bad, IF bad THEN <<"objcopy is not told to add kernel.Kmain at the address of kmain.Kmain and to globalize g0, m0, physPageSize",
+                                "got", out.objcopy, "want", CkObjcopy(in)>> ELSE <<>> >> >>
+
+--------------------------------------------------------------------------
 (* the monitor *)
 Judge(comp, in, pre, out, D) ==
   CASE comp = "cr" -> CrJudge(in, out, D) [] comp = "ls" -> LsJudge(in, pre, out, D) [] comp = "wo" -> WoJudge(in, out, D)
     [] comp = "ve" -> VeJudge(in, out, D) [] comp = "cd" -> CdJudge(in, out, D) [] comp = "mm" -> MmJudge(in, out, D)
     [] comp = "gv" -> GvJudge(in, out, D) [] comp = "oe" -> OeJudge(in, out, D) [] comp = "bw" -> BwJudge(in, out, D)
     [] comp = "do" -> DoJudge(in, out, D) [] comp = "rt" -> RtJudge(in, out, D)
+    [] comp = "ck" -> CkJudge(in, out, D)
     [] OTHER -> << <<"KBX", TRUE, <<"unknown component", comp>> >> >>
 MustRepeat(comp, in, pre, D) == IF comp = "ls" THEN LsDet(in, pre, D) ELSE TRUE
 Pre(comp, in) == IF comp = "ls" THEN LsPre(in) ELSE {}
